@@ -15,6 +15,7 @@ mod sys;
 mod world;
 mod xargs;
 mod xgen;
+mod xoracle;
 
 use prop::Tier;
 
@@ -26,7 +27,10 @@ fn usage() -> ! {
 macro_rules! dispatch {
     ($id:expr, $f:ident ( $($arg:expr),* )) => {
         match $id {
+            "C04" => driver::$f::<props::c04::C04>($($arg),*),
             "C05" => driver::$f::<props::c05::C05>($($arg),*),
+            "C19" => driver::$f::<props::c19::C19>($($arg),*),
+            "C20" => driver::$f::<props::c20::C20>($($arg),*),
             other => {
                 eprintln!("fusim: unknown property {other}");
                 std::process::exit(2);
